@@ -32,7 +32,7 @@ Definition as_bed (v : val) : option bed :=
 (* bed_write: record -> [i0 [[chunks] bytes]] | [i1] *)
 Definition c_bed_write (v : val) : val :=
   match as_bed v with
-  | Some b => v_outcome (fun cs => VL [VL (map VB cs); VB (concat cs)]) (write_calls b)
+  | Some b => v_outcome (fun cs => VB (concat cs)) (write_calls b)
   | None => v_bad
   end.
 
